@@ -147,5 +147,39 @@ def main() -> None:
                 print(f"DEFECT X02 ({name}): {m} failed and an error batch was sent, but output_batches == 0")
 
 
+def vanish() -> None:
+    """X01 (socket family): the client goes away after a stream call was dispatched, before it opened the input stream."""
+    import threading
+
+    acc = logging.getLogger("vgi_rpc.access")
+    for ticks in (0, 1):
+        cap = AccessRecords()
+        acc.addHandler(cap)
+        hook = Hook()
+        starts: list = []
+        orig = hook.on_dispatch_start
+        hook.on_dispatch_start = lambda *a, **k: (starts.append(a[0].name), orig(*a, **k))[1]
+        server = RpcServer(Svc, Impl())
+        server._dispatch_hook = _register_dispatch_hook(server._dispatch_hook, hook)
+        ct, st = make_pipe_pair()
+        th = threading.Thread(target=lambda: server.serve(st), daemon=True)
+        th.start()
+        conn = RpcConnection(Svc, ct)
+        px = conn.__enter__()
+        s = px.prod()
+        for _ in range(ticks):
+            s.tick()
+        ct.writer.close()           # the client process dies: no close(), no cancel()
+        ct.reader.close()
+        th.join(5)
+        acc.removeHandler(cap)
+        print(f"--- pipe, client vanishes after {ticks} tick(s): hook starts={starts} hook ends={hook.ends} "
+              f"access-log records={cap.recs}")
+        if len(hook.ends) != len(starts):
+            print(f"DEFECT X01 (pipe): on_dispatch_start was called {len(starts)}x, on_dispatch_end {len(hook.ends)}x "
+                  f"(and {len(cap.recs)} access-log record(s)) for a stream call whose method ran")
+
+
 if __name__ == "__main__":
     main()
+    vanish()
